@@ -35,6 +35,11 @@ type sparams struct {
 	Limit   int
 	Reqs    []sreq
 	Probe   int // sequential requests on key "a" issued after the concurrent phase
+	// Lapsed: before the concurrent phase key "a" uses up its budget, then the clock moves past every window and
+	// time-to-live: the stored entry of "a" has expired but is still in the store, and the built-in store's janitor
+	// (a daemon thread of the execution) is due: it sweeps WHILE the concurrent requests count their hits. Everything
+	// after the lapse happens inside one fresh window and is judged as usual.
+	Lapsed bool
 }
 
 // yielding storage: every call is a scheduling point ("a storage that may yield")
@@ -110,6 +115,20 @@ func runSched(p sparams) func(e *schedx.Exec) *schedx.Outcome {
 					Retry: string(fctx.Response.Header.Peek("Retry-After"))}
 				o.Ran = o.Status == rq.Status && o.Status != 429
 				obs[i] = o
+			}
+			if p.Lapsed {
+				for k := 0; k < p.Limit; k++ {
+					do(0, sreq{ID: "warm", Key: "a", Status: 200})
+				}
+				obs[0] = sobs{}
+				verifrt.Advance((3*W + 1) * time.Second)
+				utils.VerifSetTimestamp(T0 + 3*W + 1)
+				for k := range ranCount {
+					delete(ranCount, k)
+				}
+				for k := range counted {
+					delete(counted, k)
+				}
 			}
 			for i, rq := range p.Reqs {
 				i, rq := i, rq
@@ -238,6 +257,9 @@ func runSchedules(r *core.Run, depth int, alpha []hop, cfgs []hcfg) {
 			add(fmt.Sprintf("%s-%s-skipfailed-3req-limit1", algo, st), sparams{Algo: algo, Storage: st, Skip: "failed", Limit: 1,
 				Reqs: []sreq{{"f1", "a", 500}, {"r1", "a", 200}, {"r2", "a", 200}}, Probe: 1}, b2, b3, false)
 		}
+		// the key's entry has expired, the built-in store's janitor sweeps while the first requests of the new window count
+		add(fmt.Sprintf("%s-memory-lapsed-janitor-2req-limit2", algo), sparams{Algo: algo, Storage: "memory", Skip: "none", Limit: 2, Reqs: same(2, 200), Probe: 1, Lapsed: true}, b2, b3, false)
+		add(fmt.Sprintf("%s-memory-lapsed-janitor-1req-limit1", algo), sparams{Algo: algo, Storage: "memory", Skip: "none", Limit: 1, Reqs: same(1, 200), Probe: 1, Lapsed: true}, b2, b3, false)
 		// two keys in one window over a storage that keeps the value slices it is given
 		add(fmt.Sprintf("%s-keeping-2req-limit2-otherkey", algo), sparams{Algo: algo, Storage: "keeping", Skip: "none", Limit: 2, Reqs: append(same(2, 200), sreq{ID: "o1", Key: "b", Status: 200}), Probe: 1}, b2, b3, false)
 		add(fmt.Sprintf("%s-keeping-skipfailed-giveback-limit2-otherkey", algo), sparams{Algo: algo, Storage: "keeping", Skip: "failed", Limit: 2,
